@@ -1,2 +1,3 @@
 // Child module of `query::runner`: re-exports of private runner items for the harness.
 pub use super::reshard_tag::reshard_aad;
+pub use super::hybrid::Query as HybridQuery;
